@@ -113,6 +113,17 @@ def ast_classes(engine):
         c = getattr(_ast, n)
         if isinstance(c, type) and issubclass(c, _ast.AST):
             get(c)
+    # node classes of Python 3.12 (PEP 695) that the code under contract mentions; the host running pyvc
+    # may be older
+    for name, base, fields in (("type_param", "AST", ()), ("TypeVar", "type_param", ("name", "bound")), ("ParamSpec", "type_param", ("name",)),
+                               ("TypeVarTuple", "type_param", ("name",))):
+        if name not in out:
+            cv = ClassVal(name, [out[base]], builtin=True)
+            cv.is_ast = True
+            cv.attrs["_fields"] = fields
+            cv.attrs["_attributes"] = ("lineno", "col_offset", "end_lineno", "end_col_offset")
+            cv.attrs["__match_args__"] = fields
+            out[name] = cv
     engine._ast_classes = out
     return out
 
